@@ -8,7 +8,7 @@ from vlib.driver import run_driver
 KINDS = "sec"  # s = source, e = sensor, c = collection
 
 
-def gen_op(rng, cur_kinds, p_bad=0.06):
+def gen_op(rng, cur_kinds, p_bad=0.06, children_of=None):
     cur_n = len(cur_kinds)
     colls = [i for i, k in enumerate(cur_kinds) if k == "c"]
     r = rng.random()
@@ -19,6 +19,14 @@ def gen_op(rng, cur_kinds, p_bad=0.06):
     if r < 0.40:
         return {"op": "add", "c": rng.choice(colls), "objs": pick(rng.choice([1, 1, 2, 3])), "ov": rng.random() < 0.6}
     if r < 0.58:
+        if children_of and rng.random() < 0.4:
+            # structured argument lists: a child collection followed by one of its own children, or a nested descendant
+            c = rng.choice(colls)
+            sub = [x for x in children_of.get(c, []) if cur_kinds[x] == "c" and children_of.get(x)]
+            if sub:
+                inner = rng.choice(sub)
+                objs = [inner, rng.choice(children_of[inner])] if rng.random() < 0.6 else [rng.choice(children_of[inner])]
+                return {"op": "remove", "c": c, "objs": objs, "rec": rng.random() < 0.8, "raise": rng.random() < 0.5}
         return {"op": "remove", "c": rng.choice(colls), "objs": pick(rng.choice([1, 1, 2, 3])),
                 "rec": rng.random() < 0.6, "raise": rng.random() < 0.6}
     if r < 0.70:
@@ -157,7 +165,9 @@ def real_lines(h, rng=None, n_ops=0):
         if lazy:
             if j >= n_ops:
                 break
-            op = gen_op(rng, ["c" if isinstance(o, magpy.Collection) else ("e" if isinstance(o, magpy.Sensor) else "s") for o in objs])
+            idx = {id(o): i for i, o in enumerate(objs)}
+            ch = {i: [idx[id(x)] for x in o._children if id(x) in idx] for i, o in enumerate(objs) if isinstance(o, magpy.Collection)}
+            op = gen_op(rng, ["c" if isinstance(o, magpy.Collection) else ("e" if isinstance(o, magpy.Sensor) else "s") for o in objs], children_of=ch)
             h["ops"].append(op)
         else:
             if j >= len(h["ops"]):
